@@ -650,11 +650,20 @@ def trace_signature(t: dict, pos: int) -> str:
     return ",".join(keep[-8:])
 
 
-def judge(ctx: Ctx, traces: List[dict], label: str) -> None:
+def judge(ctx: Ctx, traces: List[dict], label: str, pool: Any = None) -> Any:
+    """Let TLC judge a batch.  With a pool the TLC run happens in the background: the returned callable
+    registers the verdicts (call it from the main thread, in submission order)."""
     if not traces:
-        return
+        return lambda: None
     slim = [{"cfg": t["cfg"], "src": t["src"], "events": t["events"]} for t in traces]
-    verdicts, res = validate_batch("WsSessionTrace", "WsSessionTrace.cfg", slim)
+    if pool is None:
+        _account(ctx, traces, label, *validate_batch("WsSessionTrace", "WsSessionTrace.cfg", slim))
+        return lambda: None
+    fut = pool.submit(validate_batch, "WsSessionTrace", "WsSessionTrace.cfg", slim)
+    return lambda: _account(ctx, traces, label, *fut.result())
+
+
+def _account(ctx: Ctx, traces: List[dict], label: str, verdicts: Any, res: Any) -> None:
     ctx.add_trace_batch(len(traces), res)
     for t, v in zip(traces, verdicts):
         key = json.dumps([t["cfg"]["side"]] + [[e["ev"], e["t"], e["k"], e["info"]] for e in t["events"] if e["ev"] != "tick"])
@@ -759,6 +768,7 @@ def run(ctx: Ctx) -> None:
     dev_jobs = [(side, inv, clause, pool.submit(run_tlc, "WsSession", p, workers=4, timeout=600, deadlock=False))
                 for side, inv, clause, p in dev_specs]
     traces: List[dict] = []
+    pending: List[Any] = []
     followed = 0
     for side, ck, consts, fut in cover_jobs:
         behs, cres = fut.result()
@@ -772,7 +782,7 @@ def run(ctx: Ctx) -> None:
             traces.append(tr)
         ctx.log(f"{side}: replayed {len(behs)} transition-cover paths of {ck} ({cres.distinct} states)")
         if len(traces) >= 2500:
-            judge(ctx, traces, "tlc")
+            pending.append(judge(ctx, traces, "tlc", pool))
             traces = []
     for side, consts, fut in sim_jobs:
         sims, _ = fut.result()
@@ -780,7 +790,7 @@ def run(ctx: Ctx) -> None:
             tr = replay_behaviour(ctx, loop, b, consts, "tlc-sim")
             followed += tr["followed"]
             traces.append(tr)
-    judge(ctx, traces, "tlc")
+    pending.append(judge(ctx, traces, "tlc", pool))
     ctx.extra["replays_followed_to_the_end"] = followed
     ctx.log(f"replays that followed the model to the end: {followed}; actions: {dict(ctx.action_cover)}; drift: {dict(ctx.drifts)}")
     # ---- 3. random schedules
@@ -788,9 +798,11 @@ def run(ctx: Ctx) -> None:
     for _ in range(ctx.pick(2500, 40000)):
         batch.append(random_exec(ctx, loop, ctx.rng))
         if len(batch) >= 2500:
-            judge(ctx, batch, "random")
+            pending.append(judge(ctx, batch, "random", pool))
             batch = []
-    judge(ctx, batch, "random")
+    pending.append(judge(ctx, batch, "random", pool))
+    for done in pending:
+        done()
     # ---- 4. collect the model runs
     for name, fut in model_jobs:
         res = fut.result()
